@@ -342,8 +342,9 @@ PARTIAL = [
     "statement describes (a domain whose complement was released, complexes with string elements), and the sorted `view` of "
     "the dictionary (compared with gen_pil.expected on every generated system)",
     "grammar_shape_full: every line the PEG interpreter returns on the regenerated PIL grammar satisfies line_okb (the hypothesis "
-    "of C14_reader_no_fault / C14_reader_classes / C14_failed_read_keeps_held); not proved: the model op answers BadShape for a "
-    "parsed line that violates it, so every document of every correspondence run checks it",
+    "of C14_reader_no_fault / C14_reader_classes / C14_failed_read_keeps_held): PROVED, but in the property file of C16 "
+    "(C16_grammar_shape, Proofs/PilShape.v), not repeated here; the model op still answers BadShape for a parsed line that "
+    "violates it, so every document of every correspondence run checks it as well",
     "reader_declared_only_full: a refused read raises a kind of the declared list (proved: the kind is none of the interpreter-"
     "level fault kinds; the model-level kinds OutOfFuel / BadRequest / Unmodelled / UserInitError are not excluded by a theorem, "
     "the correspondence treats the first three as disagreements)",
